@@ -564,6 +564,8 @@ func (k Keeper) SetUpCollateralRedemptionForStableVault(ctx sdk.Context, appID u
 				k.SetAssetToAmount(ctx, assetToAmtInData)
 				k.SetAssetToAmount(ctx, assetToAmtOutData)
 			}
+			// the collateral now sits in the esm account and the principal is registered for redemption: the vault record is settled
+			k.vault.DeleteStableMintVault(ctx, data.Id)
 			k.vault.DeleteAddressFromAppExtendedPairVaultMapping(ctx, data.ExtendedPairVaultID, data.Id, data.AppId)
 			k.vault.UpdateTokenMintedAmountLockerMapping(ctx, appID, data.ExtendedPairVaultID, data.AmountOut, false)
 			k.vault.UpdateCollateralLockedAmountLockerMapping(ctx, appID, data.ExtendedPairVaultID, data.AmountIn, false)
